@@ -221,7 +221,11 @@ func (c *Context) Mul(d, x, y *Decimal) (Condition, error) {
 	d.Negative = neg
 	d.Form = Finite
 	res := d.setExponent(c, unknownNumDigits, 0, int64(x.Exponent), int64(y.Exponent))
-	res |= c.round(d, d)
+	if res&(SystemOverflow|SystemUnderflow) == 0 {
+		// After a system error d's exponent has not been set; rounding would
+		// interpret whatever exponent d held before the call.
+		res |= c.round(d, d)
+	}
 	return c.goError(res)
 }
 
